@@ -616,6 +616,16 @@ func (r *pwRun) fold(call *pwCall) *core.Violation {
 			cls = "no_route_in_time"
 		}
 		out.Stats["writes_failed_"+cls]++
+		for _, pa := range call.parts {
+			if pa.seen && pa.err != nil {
+				// the entry is committed in the raft log but its apply failed here (since fix f373037
+				// the proposer is told so and the client gets an error): the entry stays in the log
+				// and a replica restarted later may still apply it - the listed finding
+				// C05-unapplied-entry-replayed-after-restart
+				r.unapplied = true
+				out.Stats["committed_entries_whose_apply_failed"]++
+			}
+		}
 		r.logf("w id=%d failed %s attempts=%d", call.id, cls, call.attempts)
 		return nil
 	}
